@@ -182,6 +182,74 @@ class LineMonitor:
             return cb(code, line)
 
 
+def with_unprotected_ranges(code):
+    """All instruction offsets inside the unprotected `with` exit / handler-entry sequences
+    (for instruction-level crash points)."""
+    import dis
+    ins = list(dis.get_instructions(code))
+    out = set()
+    starts = with_exit_offsets(code)
+    active = False
+    for x in ins:
+        if x.offset in starts:
+            active = True
+        if active:
+            out.add(x.offset)
+            if x.opname in ("CALL", "WITH_EXCEPT_START"):
+                active = False
+    return frozenset(out)
+
+
+class InstructionMonitor:
+    """INSTRUCTION events on all pulsarbat code objects, switched on only while an
+    opcode-level enumeration runs (the instrumentation is expensive)."""
+
+    def __init__(self, tool_id=2):
+        self.tool_id = tool_id
+        self.callback = None
+        self.ready = False
+
+    def _prepare(self):
+        if self.ready:
+            return
+        try:
+            _mon.use_tool_id(self.tool_id, "pbverif-instr")
+        except ValueError:
+            pass
+        self.codes = pulsarbat_code_objects(None)
+        self.skip = {c: with_unprotected_ranges(c) for c in self.codes}
+        _mon.register_callback(self.tool_id, _mon.events.INSTRUCTION, self._instr)
+        self.ready = True
+
+    def _instr(self, code, offset):
+        cb = self.callback
+        if cb is None:
+            return
+        sk = self.skip.get(code)
+        if sk and offset in sk:
+            return
+        return cb(code, offset)
+
+    def enable(self):
+        self._prepare()
+        for c in self.codes:
+            _mon.set_local_events(self.tool_id, c, _mon.events.INSTRUCTION)
+
+    def disable(self):
+        for c in self.codes:
+            _mon.set_local_events(self.tool_id, c, 0)
+
+
+_INSTR = {}
+
+
+def get_instruction_monitor():
+    m = _INSTR.get("m")
+    if m is None:
+        m = _INSTR["m"] = InstructionMonitor()
+    return m
+
+
 def get_monitor(key, tool_id, subpaths=None):
     m = _TOOLS.get(key)
     if m is None:
